@@ -352,4 +352,43 @@ theorem fairRoundT_specH (I : GIface P core cfg S) (hc : cfg.Ok) (hs : Sim P cor
         rw [h1, h2]; rfl
 
 
+theorem OnlineWH.quiescentH {I : GIface P core cfg S} {ta tb : I.Tok} {w : World P} (h : OnlineWH I ta tb w)
+    (hq : (viewW core w).quiescent) : w.quiescentH := by
+  obtain ⟨oa, ha⟩ := h.ca
+  obtain ⟨ob, hb⟩ := h.cb
+  have hca : core w.a.conn = some oa := I.core_sh ha
+  have hcb : core w.b.conn = some ob := I.core_sh hb
+  rw [viewW_eq w hca hcb] at hq
+  have qa := hq true
+  have qb := hq false
+  simp only [Bool.not_true, Bool.not_false, if_true, Bool.false_eq_true, if_false] at qa qb
+  refine ⟨qa.1, qb.1, ?_⟩
+  intro s o ho
+  cases s with
+  | a =>
+    rcases I.online_sh ha with h1 | ⟨h1, _⟩
+    · have : P.online w.a.conn = some o := ho
+      rw [h1] at this; injection this with this; subst this; exact qa.2
+    · have : P.online w.a.conn = some o := ho
+      rw [h1] at this; cases this
+  | b =>
+    rcases I.online_sh hb with h1 | ⟨h1, _⟩
+    · have : P.online w.b.conn = some o := ho
+      rw [h1] at this; injection this with this; subst this; exact qb.2
+    · have : P.online w.b.conn = some o := ho
+      rw [h1] at this; cases this
+
+/-- **four rounds of the fair suffix from any cursor state**: both sides online or pending with
+matching tokens, some answers of `a` possibly still undelivered -/
+theorem fair_progressH (I : GIface P core cfg S) (hc : cfg.Ok) (hs : Sim P core cfg) (hl : LocT P S)
+    (draws : List Nat) (alt : P.Alt) {ta tb : I.Tok} {s : FairState P} {La : List (DgH × Nat)}
+    (h : OnlineFH I ta tb s La) :
+    ∃ s' La', fairRoundsT draws alt 4 s = some s' ∧ s'.w.quiescentH ∧ OnlineFH I ta tb s' La' := by
+  obtain ⟨s1, L1, b1, e1, o1, R1⟩ := fairRoundT_specH I hc hs hl draws alt h
+  obtain ⟨s2, L2, b2, e2, o2, R2⟩ := fairRoundT_specH I hc hs hl draws alt o1
+  obtain ⟨s3, L3, b3, e3, o3, R3⟩ := fairRoundT_specH I hc hs hl draws alt o2
+  obtain ⟨s4, L4, b4, e4, o4, R4⟩ := fairRoundT_specH I hc hs hl draws alt o3
+  refine ⟨s4, L4, ?_, o4.on.quiescentH (four_roundsT R1 R2 R3 R4), o4⟩
+  simp only [fairRoundsT_succ, e1, e2, e3, e4, Option.bind_some, fairRoundsT]
+
 end Tw.NetSim
